@@ -57,6 +57,8 @@ struct Case {
     /// expected length of the logical message under test
     msg_len: usize,
     write_cap: usize,
+    /// one transient transport deviation (Interrupted once / one short write) at an operation
+    fault: Option<crate::sim::Fault>,
 }
 
 fn run_case(c: &Case, st: &mut Stats) -> Result<(), Violation> {
@@ -95,8 +97,9 @@ fn run_case(c: &Case, st: &mut Stats) -> Result<(), Violation> {
     let s = conv.stream();
     let stream = Arc::new(s.bytes);
     let mut sim = sim_for(&stream, vec![]);
-    sim.log_ops = false;
+    sim.log_ops = LOG_OPS.with(|l| l.get());
     sim.write_cap = c.write_cap;
+    sim.fault = c.fault;
     let prog = Arc::new(prog);
     let behave = Box::new(move |_: usize, cb: &Cb| match cb {
         Cb::Prepare(_) => Behavior::PrepReply { id: 1, params: param_cols(0), cols: param_cols(0) },
@@ -105,6 +108,9 @@ fn run_case(c: &Case, st: &mut Stats) -> Result<(), Violation> {
     });
     let o = run_conn(sim, ConnCfg::new(behave));
     st.transitions += o.sim.n_writes as u64;
+    if LOG_OPS.with(|l| l.get()) {
+        LAST_OPS.with(|l| *l.borrow_mut() = o.sim.ops.iter().enumerate().filter(|(_, x)| x.kind == crate::sim::OpKind::Write).map(|(i, x)| (i, x.req)).collect());
+    }
     if let ConnResult::Panic(l, m) = &o.res {
         return Err(Violation::new(panic_key(l, m), format!("{}: run_on panicked at {}: {}", c.label, l, m)));
     }
@@ -202,12 +208,12 @@ fn cases(quick: bool) -> Vec<Case> {
                 let l = (*k as i64 * MAXP as i64 + d) as usize;
                 // one text cell filling the message
                 if let Some(x) = cell_for_total(l) {
-                    v.push(Case { label: format!("text row, one cell, message {}*(2^24-1){:+} ({})", k, d, capname), shape: Shape::TextCells(vec![x]), msg_len: l, write_cap: *cap });
+                    v.push(Case { label: format!("text row, one cell, message {}*(2^24-1){:+} ({})", k, d, capname), shape: Shape::TextCells(vec![x]), msg_len: l, write_cap: *cap, fault: None });
                 }
                 // binary row: header + 1 bitmap byte + blob
                 if let Some(x) = cell_for_total(l - 2) {
                     if *cap == usize::MAX || *d % 3 == 0 {
-                        v.push(Case { label: format!("binary row, one blob, message {}*(2^24-1){:+} ({})", k, d, capname), shape: Shape::BinCell(x), msg_len: l, write_cap: *cap });
+                        v.push(Case { label: format!("binary row, one blob, message {}*(2^24-1){:+} ({})", k, d, capname), shape: Shape::BinCell(x), msg_len: l, write_cap: *cap, fault: None });
                     }
                 }
             }
@@ -222,17 +228,17 @@ fn cases(quick: bool) -> Vec<Case> {
                 let first_total = (*k as i64 * MAXP as i64 - off) as usize;
                 if let Some(a) = cell_for_total(first_total) {
                     let b = 300usize;
-                    v.push(Case { label: format!("text row, two cells, packet limit {} bytes into the second cell ({}, k={})", off, capname, k), shape: Shape::TextCells(vec![a, b]), msg_len: first_total + 3 + b, write_cap: *cap });
+                    v.push(Case { label: format!("text row, two cells, packet limit {} bytes into the second cell ({}, k={})", off, capname, k), shape: Shape::TextCells(vec![a, b]), msg_len: first_total + 3 + b, write_cap: *cap, fault: None });
                 }
             }
             // a one-byte cell straddling the limit, then a third cell
             let first_total = k * MAXP - 1;
             if let Some(a) = cell_for_total(first_total) {
-                v.push(Case { label: format!("text row, three cells, one-byte cell straddles the limit ({}, k={})", capname, k), shape: Shape::TextCells(vec![a, 1, 40]), msg_len: first_total + 2 + 41, write_cap: *cap });
+                v.push(Case { label: format!("text row, three cells, one-byte cell straddles the limit ({}, k={})", capname, k), shape: Shape::TextCells(vec![a, 1, 40]), msg_len: first_total + 2 + 41, write_cap: *cap, fault: None });
             }
             // three cells that together cross the limit, each well below it
             let third = k * MAXP / 3;
-            v.push(Case { label: format!("text row, three cells of a third of the limit each (+5) ({}, k={})", capname, k), shape: Shape::TextCells(vec![third, third, third + 5]), msg_len: 3 * 4 + 3 * third + 5, write_cap: *cap });
+            v.push(Case { label: format!("text row, three cells of a third of the limit each (+5) ({}, k={})", capname, k), shape: Shape::TextCells(vec![third, third, third + 5]), msg_len: 3 * 4 + 3 * third + 5, write_cap: *cap, fault: None });
         }
         // a row assembled from very many small writes: the packet limit falls at different offsets
         // of a cell (inside its one-byte length prefix, inside its data) as the cell size varies
@@ -240,17 +246,17 @@ fn cases(quick: bool) -> Vec<Case> {
             for w in if quick { vec![239usize, 240, 241, 1021] } else { vec![238, 239, 240, 241, 242, 250, 251, 252, 1021, 65535] } {
                 let n = MAXP / (w + if w < 251 { 1 } else { 3 }) + 40;
                 let per = w + if w < 251 { 1 } else { 3 };
-                v.push(Case { label: format!("text row of {} cells of {} bytes each ({})", n, w, capname), shape: Shape::TextCells(vec![w; n]), msg_len: n * per, write_cap: *cap });
+                v.push(Case { label: format!("text row of {} cells of {} bytes each ({})", n, w, capname), shape: Shape::TextCells(vec![w; n]), msg_len: n * per, write_cap: *cap, fault: None });
             }
         }
         // large ERR message and column name
         for d in if quick { vec![0i64] } else { vec![-1i64, 0, 1] } {
             let l = (MAXP as i64 + d) as usize;
-            v.push(Case { label: format!("ERR packet of (2^24-1){:+} bytes ({})", d, capname), shape: Shape::ErrMsg(l - 9), msg_len: l, write_cap: *cap });
+            v.push(Case { label: format!("ERR packet of (2^24-1){:+} bytes ({})", d, capname), shape: Shape::ErrMsg(l - 9), msg_len: l, write_cap: *cap, fault: None });
         }
         let nl = (1 << 24) + 10;
         // def(4) + schema(1) + table(1) + org_table(1) + name(9+nl) + org_name(1) + 0x0c(1) + 12 fixed
-        v.push(Case { label: format!("column name of 2^24+10 bytes ({})", capname), shape: Shape::ColName(nl), msg_len: 4 + 1 + 1 + 1 + 9 + nl + 1 + 1 + 12, write_cap: *cap });
+        v.push(Case { label: format!("column name of 2^24+10 bytes ({})", capname), shape: Shape::ColName(nl), msg_len: 4 + 1 + 1 + 1 + 9 + nl + 1 + 1 + 12, write_cap: *cap, fault: None });
     }
     v
 }
@@ -275,6 +281,76 @@ impl Family for Big {
     fn describe(&self, idx: u64) -> J {
         let c = &self.cases[idx as usize];
         json!({"case": c.label, "logical_message_bytes": c.msg_len, "shape": format!("{:?}", c.shape), "transport_write_cap": if c.write_cap == usize::MAX { 0 } else { c.write_cap }})
+    }
+}
+
+
+/// the large messages again, with exactly one transient deviation of the transport at one of
+/// the writes that carry them: `Interrupted` once (std's write_all retries it), or one write that
+/// accepts 1 byte / half of what was offered. The full oracle of `run_case` applies.
+struct Transient {
+    cases: Vec<Case>,
+}
+impl Transient {
+    fn new(quick: bool) -> Self {
+        let mut cases = Vec::new();
+        let mut bases: Vec<Case> = Vec::new();
+        for (k, d) in if quick { vec![(2usize, 0i64)] } else { vec![(1usize, 0i64), (2, 0), (2, 5)] } {
+            let l = (k as i64 * MAXP as i64 + d) as usize;
+            if let Some(x) = cell_for_total(l) {
+                bases.push(Case { label: format!("text row, one cell, message {}*(2^24-1){:+}", k, d), shape: Shape::TextCells(vec![x]), msg_len: l, write_cap: usize::MAX, fault: None });
+            }
+            if let Some(x) = cell_for_total(l - 2) {
+                bases.push(Case { label: format!("binary row, one blob, message {}*(2^24-1){:+}", k, d), shape: Shape::BinCell(x), msg_len: l, write_cap: usize::MAX, fault: None });
+            }
+        }
+        for b in bases {
+            // operation log of the undisturbed run
+            let ops = base_ops(&b);
+            for (at, req) in ops {
+                if req < 1000 {
+                    continue;
+                }
+                for (kind, what) in [(crate::sim::FaultKind::Error(std::io::ErrorKind::Interrupted), "Interrupted once"), (crate::sim::FaultKind::ShortWrite(1), "accepts 1 byte"), (crate::sim::FaultKind::ShortWrite(req / 2), "accepts half")] {
+                    let mut c = b.clone();
+                    c.label = format!("{}; the transport write of {} bytes at operation {} {}", b.label, req, at, what);
+                    c.fault = Some(crate::sim::Fault { at_op: at, kind, persistent: false });
+                    cases.push(c);
+                }
+            }
+        }
+        Transient { cases }
+    }
+}
+/// (absolute operation index, bytes offered) of every transport write of the undisturbed run
+fn base_ops(c: &Case) -> Vec<(usize, usize)> {
+    LOG_OPS.with(|l| l.set(true));
+    let mut st = Stats::default();
+    let _ = run_case(c, &mut st);
+    LOG_OPS.with(|l| l.set(false));
+    LAST_OPS.with(|l| l.borrow_mut().drain(..).collect())
+}
+thread_local! {
+    static LOG_OPS: std::cell::Cell<bool> = std::cell::Cell::new(false);
+    static LAST_OPS: std::cell::RefCell<Vec<(usize, usize)>> = std::cell::RefCell::new(Vec::new());
+}
+impl Family for Transient {
+    fn name(&self) -> String {
+        "large-messages-one-transient-deviation".into()
+    }
+    fn len(&self) -> u64 {
+        self.cases.len() as u64
+    }
+    fn max_threads(&self) -> Option<usize> {
+        Some(8)
+    }
+    fn run(&self, idx: u64, st: &mut Stats) -> Result<(), Violation> {
+        st.nontrivial += 1;
+        st.bump("transient_deviations");
+        run_case(&self.cases[idx as usize], st)
+    }
+    fn describe(&self, idx: u64) -> J {
+        json!({"case": self.cases[idx as usize].label})
     }
 }
 
@@ -396,12 +472,12 @@ pub fn build(quick: bool) -> Check {
     Check {
         id: "C04",
         level: "model_checking",
-        rule: format!("{} large-message scenarios on the real run_on: logical messages of k*(2^24-1)+d bytes (k in {{1{}}}, d in [-6,6]) as a one-cell text row and as a binary row; two-cell rows with the packet limit falling -1..4 bytes into the second cell (inside its 3-byte length prefix, exactly between the cells, in its data); a one-byte cell straddling the limit; three cells each far below the limit; rows of ~70000 / ~16000 small cells (239..241, 1021 bytes; more sizes in thorough) so that the limit falls at varying offsets of a cell; ERR messages and a column name beyond 2^24 bytes; each under whole, 1 MiB and 65537-byte transport writes, followed by a small row and a sentinel PING. Plus every cell length 0..70000, and cells of 2^15..2^20+1 bytes alone and after 270 / 1500 small rows. Oracle: every header length equals the bytes that follow; the message is cut into floor(L/(2^24-1)) maximal packets plus one shorter (possibly empty) packet; consecutive sequence ids; strict decode returns exactly the bytes written. Non-trivial = message of at least 2^24-1 bytes.", n, ",2"),
+        rule: format!("{} large-message scenarios on the real run_on: logical messages of k*(2^24-1)+d bytes (k in {{1{}}}, d in [-6,6]) as a one-cell text row and as a binary row; two-cell rows with the packet limit falling -1..4 bytes into the second cell (inside its 3-byte length prefix, exactly between the cells, in its data); a one-byte cell straddling the limit; three cells each far below the limit; rows of ~70000 / ~16000 small cells (239..241, 1021 bytes; more sizes in thorough) so that the limit falls at varying offsets of a cell; ERR messages and a column name beyond 2^24 bytes; each under whole, 1 MiB and 65537-byte transport writes; two-packet messages again with one transient deviation (Interrupted once, a write accepting 1 byte / half) at each large transport write; followed by a small row and a sentinel PING. Plus every cell length 0..70000, and cells of 2^15..2^20+1 bytes alone and after 270 / 1500 small rows. Oracle: every header length equals the bytes that follow; the message is cut into floor(L/(2^24-1)) maximal packets plus one shorter (possibly empty) packet; consecutive sequence ids; strict decode returns exactly the bytes written. Non-trivial = message of at least 2^24-1 bytes.", n, ",2"),
         assumptions: vec!["message sizes are explored in a window around the packet limit, not exhaustively between 70000 and 2^24-7".into()],
         bounds: json!({"k": 2, "d_window": 6, "scenarios": n}),
         exhaustive: true,
         caps_hit: vec![],
-        families: vec![Box::new(Big { cases: cs }), Box::new(Small), Box::new(MidSizes)],
-        required: vec!["multi_packet_messages", "empty_closing_packets", "mid_size_cells"],
+        families: vec![Box::new(Big { cases: cs }), Box::new(Transient::new(quick)), Box::new(Small), Box::new(MidSizes)],
+        required: vec!["transient_deviations", "multi_packet_messages", "empty_closing_packets", "mid_size_cells"],
     }
 }
